@@ -276,6 +276,8 @@ prop(
         {"test": "TestC03", "checks": 1500, "timeout": 400, "thorough": {"checks": 15000, "shards": 12, "timeout": 1700}},
         {"test": "TestC03Real", "rapid": False, "timeout": 600, "thorough": {"shards": 4, "timeout": 1700}},
         {"test": "TestC03Findings", "rapid": False, "timeout": 60},
+        # with the beta SPDX 3 serializer linked (dedicated binary)
+        {"test": "TestC03", "checks": 400, "timeout": 400, "tags": "verifbeta", "thorough": {"checks": 4000, "shards": 4, "timeout": 1700}},
     ],
     floor={"quick": 300, "thorough": 3000},
 )
@@ -300,6 +302,8 @@ prop(
         {"test": "TestC04Bytes", "checks": 1500, "replay_test": "TestC04Replay", "timeout": 600, "mem_gb": 6, "thorough": {"checks": 10000, "shards": 8, "timeout": 3000}},
         {"test": "TestC04Scaling", "rapid": False, "replay_test": "TestC04Replay", "timeout": 300, "mem_gb": 6},
         {"test": "TestC04Findings", "rapid": False, "timeout": 60},
+        # coverage-guided native fuzzing, thorough tier only (all cores; not reproducible from a seed)
+        {"test": "FuzzC04Parse", "fuzz": "FuzzC04Parse", "rapid": False, "fuzztime": "240s", "timeout": 900, "mem_gb": 12, "quick": {"skip": True}},
     ],
     floor={"quick": 2000, "thorough": 20000},
 )
@@ -351,6 +355,7 @@ prop(
         {"test": "TestC06Positive", "checks": 600, "timeout": 400, "thorough": {"checks": 8000, "shards": 10, "timeout": 1700}},
         {"test": "TestC06Negative", "checks": 4000, "timeout": 300, "thorough": {"checks": 60000, "shards": 6, "timeout": 1700}},
         {"test": "TestC06Accessors", "rapid": False, "timeout": 60},
+        {"test": "FuzzC06Sniff", "fuzz": "FuzzC06Sniff", "rapid": False, "fuzztime": "120s", "timeout": 600, "mem_gb": 12, "quick": {"skip": True}},
     ],
     floor={"quick": 1000, "thorough": 20000},
 )
@@ -371,10 +376,13 @@ prop(
                  "render indentation is a non-negative configuration value"],
     level_text=("every write returns error xor non-empty valid JSON, without panic, watchdog hit (10 s) or process death (journalled case re-executed alone), leaves "
                 "the document unchanged, and equals the output of writing the same document again after another document and through a fresh writer."),
-    level_note="trusts rapid, the canonical JSON form in harness/hx/jsonmodel.go; the beta SPDX 3 serializer is covered by its own binary (see DESIGN)",
+    level_note="trusts rapid, the canonical JSON form in harness/hx/jsonmodel.go; the beta SPDX 3 serializer is covered by a dedicated binary built with -tags verifbeta",
     jobs=[
         {"test": "TestC07", "checks": 1200, "timeout": 400, "replay_test": "TestC07Replay", "thorough": {"checks": 12000, "shards": 12, "timeout": 1700}},
         {"test": "TestC07Shapes", "rapid": False, "exhaustive": True, "replay_test": "TestC07Replay", "timeout": 400},
+        # the same checks with the beta SPDX 3 serializer linked (it registers itself in init): dedicated binary
+        {"test": "TestC07", "checks": 300, "timeout": 400, "tags": "verifbeta", "replay_test": "TestC07Replay", "thorough": {"checks": 4000, "shards": 4, "timeout": 1700}},
+        {"test": "TestC07Shapes", "rapid": False, "exhaustive": True, "tags": "verifbeta", "replay_test": "TestC07Replay", "timeout": 400},
     ],
     floor={"quick": 300, "thorough": 3000},
 )
@@ -413,7 +421,10 @@ prop(
     level_text=("no race report, no runtime abort; every parse / write / detection result equals the sequential result computed beforehand; constructors return instances "
                 "configured with their own options; the registry call/return histories are linearizable w.r.t. a map model (porcupine)."),
     level_note="trusts the Go race detector, porcupine v1.3.0 and rapid",
-    jobs=[{"test": "TestC17", "checks": 350, "race": True, "timeout": 400, "thorough": {"checks": 3000, "shards": 8, "timeout": 1700}}],
+    jobs=[
+        {"test": "TestC17", "checks": 350, "race": True, "timeout": 400, "thorough": {"checks": 3000, "shards": 8, "timeout": 1700}},
+        {"test": "TestC17SniffStress", "rapid": False, "race": True, "timeout": 300, "thorough": {"shards": 4}},
+    ],
     floor={"quick": 100, "thorough": 3000},
 )
 
